@@ -1344,7 +1344,38 @@ fn main() {
     op_loop(scratch_str, mark)
 }
 
+/// Temp files of every cache directory (`c<digits>`) below the scratch directory.
+fn all_tmp_files() -> BTreeSet<String> {
+    let mut s = BTreeSet::new();
+    if let Ok(rd) = std::fs::read_dir(".") {
+        for e in rd.flatten() {
+            let name = e.file_name().to_string_lossy().into_owned();
+            if is_cache_name(&name) {
+                for t in tmp_names(&name) {
+                    s.insert(format!("{name}/tmp/{t}"));
+                }
+            }
+        }
+    }
+    s
+}
+
+/// The async writers finish some work (dropping the temp file after a failed close, the
+/// detached clean-up of a dropped writer) on pool threads AFTER the caller has its answer.
+/// `process::exit` would cut that short, so give it a moment: wait until no temp file
+/// that appeared during this run is left (at most 1.5 s — a real leak stays visible).
+fn quiesce(before: &BTreeSet<String>) {
+    let deadline = Instant::now() + Duration::from_millis(1500);
+    loop {
+        if all_tmp_files().iter().all(|t| before.contains(t)) || Instant::now() >= deadline {
+            return;
+        }
+        std::thread::sleep(Duration::from_millis(3));
+    }
+}
+
 fn op_loop(scratch_str: String, mark: bool) {
+    let tmp_before = all_tmp_files();
     let mut st = St {
         scratch: scratch_str,
         writers: HashMap::new(),
@@ -1411,5 +1442,9 @@ fn op_loop(scratch_str: String, mark: bool) {
     safe_drop(readers);
     safe_drop(linkers);
     let _ = std::io::stdout().flush();
+    #[cfg(any(feature = "rt-async-std", feature = "rt-tokio"))]
+    quiesce(&tmp_before);
+    #[cfg(not(any(feature = "rt-async-std", feature = "rt-tokio")))]
+    let _ = &tmp_before;
     std::process::exit(0);
 }
